@@ -199,3 +199,21 @@ def kf_lines_blank_input(c):
 
 
 KF_CLASSES = {"lines_blank_input": kf_lines_blank_input}
+
+
+PROPS["C01"] = dict(
+    gen=lambda rng, n, tier: F.fields(rng, n),
+    budget=(5000, 60000),
+    absolute=True,
+    in_domain=always,
+    nontrivial=lambda c, m: m[0] == "0" and len(m[1]) > 1,
+    release=True,
+    rule="-f on the general path and the fast lane: delimiters of 1..3 bytes incl. self-overlapping ('--', 'aba') and "
+         "multi-byte UTF-8, random bounds lists (positive/negative/open/repeated/reordered/format text/fallbacks), the "
+         "lattice {-g,-p,-t l|r|b,-s,-j,-r R,-m,-z,--fallback-oob}, records over small, textual, nasty (NUL, CR, "
+         "0x80-0xFF) and full byte alphabets, 0..4 records with/without final EOL; non-trivial = status 0 with output "
+         "beyond a lone EOL",
+    theorems=["C01_fields_locations_are_fields", "C01_offsets_equal_values", "C01_split_is_leftmost_nonoverlapping"],
+    assumptions=["records with fewer than 2^31 fields", "proved: the splitting core; trim / -p / -g / -r / the output "
+                 "loop are the executable model, tied to the code by this run's correspondence check"],
+)
